@@ -14,10 +14,11 @@ CatEq == [b \in {"b1", "b2", "b3", "b4", "b5"} |->
       [] b = "b5" -> [reac |-> [s \in {"C"} |-> 3], prod |-> [s \in {"A", "D"} |-> IF s = "A" THEN 2 ELSE 1]]]
 CatSmallSeq == <<"b1", "b2", "b3", "b4">>
 
-S_Quick == {-2, -1, 2, 3}
-S_Wide == {-3, -2, -1, 2, 3}
+S_Quick == {-2, -1, 1, 2, 3}
+S_Wide == {-3, -2, -1, 1, 2, 3}
+S_T == {-2, -1, 1, 3}
 S_None == {}
-Q_All == {"elim", "cancel", "asrx"}
+Q_All == {"elim", "cancel", "asrx", "copy"}
 Q_Elim == {"elim"}
 Q_None == {}
 
